@@ -186,17 +186,25 @@ CHECKS["C20"] = dict(
     explanation="The engine turns every index, slice, nil dereference, type assertion, division and make() executed on any path into a check. "
                 "Dedicated harnesses: all S3 route handlers with request documents that are arbitrary values of their type including absent (nil) "
                 "elements and empty lists; the backend's parsers of client strings; both aws-chunked decoders on arbitrary bytes incl. the rule that no "
-                "allocation is sized by unauthenticated input.",
+                "allocation is sized by unauthenticated input. Posix listing / paging entry points on the file-system model with every count 0..3 and "
+                "marker from a small set over buckets with up to 2 objects and 4 uploads.",
     harnesses=[
         dict(name="H20-routes", pkgs=["./s3api"], entry="s3api.VfCrashRoutes", redirects="spec/redirects_ctrl_stub.json", reach=["returned", "handler-entered"],
              key_trace=['"route=']),
         dict(name="H20-auth", pkgs=["./s3api"], entry="s3api.VfAuthCrash", redirects="spec/redirects_auth.json", reach=["answered"]),
         dict(name="H20-parsers", pkgs=["./backend"], entry="backend.VfCrashParsers", native=True, reach=["returned"]),
         dict(name="H20-chunk", pkgs=["./s3api/utils"], entry="s3api/utils.VfCrashChunk", redirects="spec/redirects.json", pkgname="utils", native=True, reach=["returned"]),
+        dict(name="H20-posix-uploads", pkgs=["./backend/posix"], entry="backend/posix.VfPosixNoCrashUploads", redirects="spec/redirects_fs.json", reach=["returned"],
+             key_trace=['"entry point:']),
+        dict(name="H20-posix-listings", pkgs=["./backend/posix"], entry="backend/posix.VfPosixNoCrashListings", redirects="spec/redirects_fs.json", reach=["returned"],
+             key_trace=['"entry point:']),
+        dict(name="H20-posix-object", pkgs=["./backend/posix"], entry="backend/posix.VfPosixNoCrashObject", redirects="spec/redirects_fs.json", reach=["returned"],
+             key_trace=['"entry point:']),
     ],
     assumptions=["backend results follow the producer's contract (non-nil outputs on success)", "fiber context / XML decoding are models",
                  "callers pass non-empty copy-source headers to ParseCopySource"],
-    outside=["liveness/latency beyond loop termination", "the HTTP layer (fiber/fasthttp parsing)", "posix backend entry points (FS model: not built yet)",
+    outside=["liveness/latency beyond loop termination", "the HTTP layer (fiber/fasthttp parsing)",
+             "posix entry points other than ListParts, ListMultipartUploads, ListObjects(V2), ListObjectVersions, GetObjectAttributes, HeadObject; counts above 3, more than 4 uploads / 2 objects",
              "panics inside un-modelled libraries"],
 )
 
